@@ -18,6 +18,8 @@ CONSTANTS
   ExportLen = %d
   StackMax = %d
   MaxFree = %d
+  StackMod = %d
+  StackRem = %d
   RepeatWeight = %d
   Only %s
 INVARIANTS OracleSane Export
@@ -113,14 +115,15 @@ def run(pid, tier, replay=None):
     elif tier == "thorough":
         runs = [("exh_p4_l5", 4, 5, None, 0, None), ("exh_p5_l4", 5, 4, None, 1, None), ("exh_p2_l7", 2, 7, None, 4, None),
                 ("exh_p1_l10", 1, 10, None, 4, None),
-                ("stack_p4_k3_f3", 4, 6, None, 8, (3, 3)), ("stack_p2_k7_f4", 2, 11, None, 8, (7, 4)),
+                ("stack_p4_k3_f3", 4, 6, None, 8, (3, 3, 1)), ("stack_p2_k7_f4", 2, 11, None, 8, (7, 4, 1)),
                 ("sim_p9_l12", 9, 12, 400, 1, None)]
     else:
-        runs = [("exh_p4_l4", 4, 4, None, 5, None), ("exh_p2_l5", 2, 5, None, 1, None), ("exh_p1_l7", 1, 7, None, 1, None),
-                ("stack_p3_k3_f3", 3, 6, None, 0, (3, 3)),
-                ("sim_p7_l9", 7, 9, 40, 0, None)]
-    # the last element (k, f): "stacked" family = 1..k copies of one interval, then every sequence of exactly f
-    # further inserts (see MCInterval); simulate runs re-offer earlier intervals with weight SIM_REPEAT_WEIGHT
+        runs = [("exh_p4_l4", 4, 4, None, 5, None), ("exh_p2_l5", 2, 5, None, 3, None), ("exh_p1_l7", 1, 7, None, 2, None),
+                ("stack_p3_k3_f3_half", 3, 6, None, 0, (3, 3, 2)),
+                ("sim_p7_l9", 7, 9, 25, 0, None)]
+    # the last element (k, f, m): "stacked" family = 1..k copies of one base interval, then every sequence of exactly
+    # f further inserts (see MCInterval); m > 1: only the base intervals with (7*lo+hi) % m == VERIF_SEED % m (quick
+    # samples half of them; thorough takes all).  Simulate runs re-offer earlier intervals with weight SIM_REPEAT_WEIGHT
 
     states = trans = ncases = nontrivial = checks = traced = rejected_total = 0
     samples, bounds, variants = [], [], {}
@@ -131,11 +134,12 @@ def run(pid, tier, replay=None):
         module = "MCInterval"
         with open(os.path.join(wd, cfg), "w") as fh:
             if replay:
-                fh.write(CFG % (maxp, maxlen, 0, 0, 0, 0, "<- OnlyDef"))
+                fh.write(CFG % (maxp, maxlen, 0, 0, 0, 1, 0, 0, "<- OnlyDef"))
                 module = "MCIntervalReplay"
             else:
+                smod = stack[2] if stack else 1
                 fh.write(CFG % (maxp, maxlen, maxlen, stack[0] if stack else 0, stack[1] if stack else 0,
-                                SIM_REPEAT_WEIGHT if sim else 0, "= {}"))
+                                smod, seed % smod, SIM_REPEAT_WEIGHT if sim else 0, "= {}"))
         casefile = os.path.join(wd, "cases_%s.jsonl" % name)
         seen = set()
         cnt = [0, 0]
@@ -158,7 +162,11 @@ def run(pid, tier, replay=None):
             raise vf.MachineryError("spec-level check %s failed in MCInterval (%s)" % (r.violated, name))
         if not sim and not replay:
             nivs = (maxp + 1) * (maxp + 2) // 2
-            expect = stack[0] * nivs ** (stack[1] + 1) if stack else nivs ** maxlen
+            if stack:
+                nbase = sum(1 for a in range(maxp + 1) for b in range(a, maxp + 1) if (7 * a + b) % stack[2] == seed % stack[2])
+                expect = stack[0] * nbase * nivs ** stack[1]
+            else:
+                expect = nivs ** maxlen
             if cnt[0] != expect:
                 raise vf.MachineryError("MCInterval %s exported %d histories, expected %d" % (name, cnt[0], expect))
         if cnt[0] == 0:
@@ -168,7 +176,7 @@ def run(pid, tier, replay=None):
         ncases += cnt[0]
         nontrivial += cnt[1]
         bounds.append({"run": name, "points": "0..%d" % maxp, "max_inserts": maxlen, "simulate": sim,
-                       "stacked_copies_then_free_inserts": list(stack) if stack else None,
+                       "stacked_copies_free_inserts_basemod": list(stack) if stack else None,
                        "histories": cnt[0], "tlc_states": r.distinct})
 
         trace_path = os.path.join(wd, "nesting_%s.ndjson" % name)
@@ -209,18 +217,21 @@ def run(pid, tier, replay=None):
                         break
                     hf.write(line)
             k0 = (seed * 7919) % min(2000, cnt[0])
-            def _mism(extra_args):
+
+            def _st(extra_args):
                 rc, o, err = vf.run_driver(binary, ["-seed", str(seed)] + extra_args, stdin_path=head, timeout=3000)
-                return [json.loads(l) for l in o.splitlines() if '"stats"' in l][-1]["stats"]["mismatches"]
-            base_m = _mism([])
+                return [json.loads(l) for l in o.splitlines() if '"stats"' in l][-1]["stats"]
+            base_m = _st([])["mismatches"]
+            # the driver damages the first case from k0 on that agrees with the model (cases hit by a known finding
+            # cannot show one more disagreement); wrap around once if none is left after k0
             corrupt_ok = False
-            # a case that already disagrees (known finding) cannot show one more disagreement: try the next ones
-            for k in range(k0, k0 + 25):
-                if _mism(["-corrupt", str(k % min(2000, cnt[0]))]) > base_m:
-                    corrupt_ok = True
+            for k in (k0, 0):
+                st = _st(["-corrupt", str(k)])
+                if st.get("corrupted_case", -1) >= 0:
+                    corrupt_ok = st["mismatches"] > base_m
                     break
             if not corrupt_ok and not verdict.violations:
-                raise vf.MachineryError("binding self-test failed: corrupted expectation in case %d not reported" % k)
+                raise vf.MachineryError("binding self-test failed: corrupted expectation (from case %d) not reported" % k0)
 
     rc = verdict.finish()
     vf.write_evidence(pid, tier, "model_checking", {
